@@ -180,6 +180,7 @@ func runWin(sc WinScenario) (evs []Ev, inconclusive string) {
 		gates = []string{p + ".trig", p + ".fired"}
 		if sc.Cfg.Kind == "sliding" { // the model separates the delivery from taking the lock again (step "relock")
 			gates = append(gates, p+".sent")
+			gates = append(gates, p+".late") // ... and Add's late re-deliveries, each sent with the lock released (step "latesend")
 		}
 	} else if sc.Burst {
 		gates = []string{p + ".trig"}
@@ -248,6 +249,7 @@ func runWin(sc WinScenario) (evs []Ev, inconclusive string) {
 		return st["bufferUsed"] == 0 && in.C("proc.batch") >= st["sentCount"]
 	}
 	trigBase := int64(0)
+	freeTail := false
 	for _, st := range sc.Steps {
 		switch st.A {
 		case "add":
@@ -295,8 +297,15 @@ func runWin(sc WinScenario) (evs []Ev, inconclusive string) {
 			}
 			s.Emit(row)
 			n := nAdd
-			if !in.WaitFor(T, func() bool { return in.C("proc.item") >= n }) {
+			lateGate := p + ".late"
+			if !in.WaitFor(T, func() bool { return in.C("proc.item") >= n || in.NWaiting(lateGate) > 0 }) {
 				return in.Events(), "add not processed"
+			}
+			in.mu.Lock()
+			parked := len(in.waiting[lateGate]) > 0
+			in.mu.Unlock()
+			if parked {
+				break // the producer is inside Add, parked before a late re-delivery: the model's next steps decide who runs
 			}
 			if sc.Cfg.Idle > 0 {
 				in.Log(Ev{"tr": sc.Tr, "e": "added", "id": st.ID}) // the row has reached the window (and the watermark's idle clock)
@@ -353,6 +362,29 @@ func runWin(sc WinScenario) (evs []Ev, inconclusive string) {
 			if !in.WaitFor(T, delivered) {
 				return in.Events(), "delivery not consumed"
 			}
+		case "freerun":
+			// the forced part of the scenario is over: every gate opens for good and the engine runs by itself from here on
+			in.Log(Ev{"tr": sc.Tr, "e": "freerun"})
+			in.Disarm()
+			freeTail = true
+		case "latesend":
+			lateGate := p + ".late"
+			in.mu.Lock()
+			nw := len(in.waiting[lateGate])
+			a := in.arrived[lateGate]
+			in.mu.Unlock()
+			if nw == 0 {
+				return in.Events(), "latesend step but the producer is not parked at a late re-delivery"
+			}
+			in.Log(Ev{"tr": sc.Tr, "e": "latesend"})
+			in.Release(lateGate)
+			n := nAdd
+			if !in.WaitFor(T, func() bool { return in.arrived[lateGate] > a || in.C("proc.item") >= n }) {
+				return in.Events(), "late re-delivery did not complete"
+			}
+			if !in.WaitFor(T, delivered) {
+				return in.Events(), "late update not consumed"
+			}
 		case "relock":
 			in.mu.Lock()
 			nw := len(in.waiting[p+".sent"])
@@ -379,7 +411,7 @@ func runWin(sc WinScenario) (evs []Ev, inconclusive string) {
 		// let the source fall idle: the watermark ticker (200ms) then advances on processing time and flushes the open windows
 		time.Sleep(time.Duration(sc.Cfg.Idle)*time.Millisecond + 500*time.Millisecond)
 	}
-	if sc.Free {
+	if sc.Free || freeTail {
 		// quiescence: all rows ingested, every sent watermark processed, all batches consumed
 		ok := in.WaitFor(T, func() bool {
 			return in.C("proc.item") >= nAdd && in.C(p+".trigdone") >= in.C("wm.sent") && delivered()
